@@ -192,6 +192,53 @@ fn interesting(t: &mut Tape) -> u8 {
     *t.pick(&[0u8, 1, 0xff, 0x7f, 0x80, 2, 4, 8, 0x0f, 0xf0, 0x3f, 0x40, 0xfe])
 }
 
+/// An adversarial TCP options area: a list of options whose kinds are the known ones or arbitrary and whose
+/// length octets are right, off by a few, zero, one, or larger than what is left.
+fn fuzz_tcp_opts(t: &mut Tape) -> Vec<u8> {
+    let mut o = vec![];
+    let n = 1 + t.draw(5);
+    for _ in 0..n {
+        let kind = *t.pick(&[2u8, 3, 4, 5, 8, 1, 0, 5, 5, 8, 30, 254, 6, 34]);
+        if kind == 1 || kind == 0 {
+            o.push(kind);
+            continue;
+        }
+        let right: u8 = match kind {
+            2 => 4,
+            3 => 3,
+            4 => 2,
+            5 => 2 + 8 * (1 + t.draw(4) as u8),
+            8 => 10,
+            _ => 2 + t.draw(12) as u8,
+        };
+        let len = match t.draw(8) {
+            0 => 0,
+            1 => 1,
+            2 => right.wrapping_sub(1 + t.draw(5) as u8),
+            3 => right.wrapping_add(1 + t.draw(7) as u8),
+            4 => *t.pick(&[255u8, 40, 41, 128, 3, 6, 14, 22, 30, 38]),
+            _ => right,
+        };
+        o.push(kind);
+        o.push(len);
+        // body sized by the right length or by the declared one
+        let body = if t.draw(2) == 0 { right.saturating_sub(2) } else { len.saturating_sub(2) } as usize;
+        for _ in 0..body.min(38) {
+            o.push(t.draw(256) as u8);
+        }
+        if o.len() >= 40 {
+            break;
+        }
+    }
+    // sometimes cut in the middle of the last option
+    if t.draw(4) == 0 && !o.is_empty() {
+        let cut = t.draw(o.len() as u64) as usize;
+        o.truncate(cut.max(1));
+    }
+    o.truncate(40);
+    o
+}
+
 /// Build one adversarial IP datagram (before L2 wrapping). Returns (ip bytes, l2 broadcast?).
 fn gen_ip(a: &mut Adv) -> (Vec<u8>, bool) {
     let want_v6 = a.tape.draw(2) == 1;
@@ -204,6 +251,11 @@ fn gen_ip(a: &mut Adv) -> (Vec<u8>, bool) {
             // SYN (or other flags) to the listener
             let flags = *a.tape.pick(&[F_SYN, F_SYN | F_ACK, F_ACK, F_RST, F_FIN | F_ACK, F_SYN | F_FIN, 0, 0x3f]);
             let t = Tcp { sport: 1024 + a.tape.draw(60000) as u16, dport: 80, seq: a.tape.draw(u32::MAX as u64) as u32, ack: a.tape.draw(u32::MAX as u64) as u32, flags, win: a.tape.draw(65536) as u16, opts: TcpOpts { mss: Some(a.tape.draw(65536) as u16), wscale: Some(a.tape.draw(20) as u8), sack_perm: true, sack: vec![], ts: if a.tape.draw(2) == 1 { Some((1, 2)) } else { None } }, payload: { let n = a.tape_len(40); rnd_bytes(a.tape, n) }, ..Tcp::default() };
+            if a.tape.draw(3) == 2 {
+                let o = fuzz_tcp_opts(a.tape);
+                a.stats.inc("adv.tcp-fuzzed-options");
+                return (enc_ip(&p, &v, P_TCP, hop, &enc_tcp_raw_opts(&p, &v, &t, &o)), false);
+            }
             (enc_ip(&p, &v, P_TCP, hop, &enc_tcp(&p, &v, &t)), false)
         }
         1 => {
@@ -233,6 +285,11 @@ fn gen_ip(a: &mut Adv) -> (Vec<u8>, bool) {
                 if seq == e.3 {
                     e.3 = e.3.wrapping_add(n as u32);
                 }
+            }
+            if a.tape.draw(4) == 3 {
+                let o = fuzz_tcp_opts(a.tape);
+                a.stats.inc("adv.tcp-fuzzed-options");
+                return (enc_ip(&p, &v, P_TCP, hop, &enc_tcp_raw_opts(&p, &v, &t, &o)), false);
             }
             (enc_ip(&p, &v, P_TCP, hop, &enc_tcp(&p, &v, &t)), false)
         }
